@@ -90,7 +90,14 @@ def run(chk):
             chk.undecided("O18.1", cls.qual, "loader bases %s are not recognised" % ext, node=cls.node)
         else:
             # the class body must not register constructors itself
-            extra = [n for n in cls.node.body if not isinstance(n, (ast.Expr, ast.Pass))]
+            # (an override of flatten_mapping is judged by O18.7; it may read, but not write, the constructor table)
+            def harmless(n):
+                if not (isinstance(n, ast.FunctionDef) and n.name == "flatten_mapping"):
+                    return False
+                writes = any(isinstance(x, ast.Call) and isinstance(x.func, ast.Attribute) and x.func.attr in ("add_constructor", "add_multi_constructor", "add_implicit_resolver", "add_path_resolver") for x in ast.walk(n)) or any(isinstance(x, (ast.Attribute, ast.Subscript)) and isinstance(x.ctx, (ast.Store, ast.Del)) for x in ast.walk(n))
+                return not writes
+
+            extra = [n for n in cls.node.body if not isinstance(n, (ast.Expr, ast.Pass)) and not harmless(n)]
             tables = [n for n in extra if isinstance(n, (ast.Assign, ast.AnnAssign)) and any(isinstance(t, ast.Name) and t.id in ("yaml_constructors", "yaml_multi_constructors", "yaml_implicit_resolvers", "yaml_path_resolvers") for t in (n.targets if isinstance(n, ast.Assign) else [n.target]))]
             if tables:
                 chk.bad("O18.1", cls.qual, "the loader class replaces the constructor table it inherits from SafeLoader (%s): the inherited catch-all entry None -> construct_undefined, which rejects every unregistered and every python/* tag, is gone unless it is copied, so such tags are accepted as plain data" % util.unparse(tables[0]).split("=")[0].strip(), node=tables[0], stmt="loader-own-table")
@@ -186,6 +193,9 @@ def run(chk):
                     sites.append((g, arg))
         return bool(sites) and all(arg is not None and traces_to_param(g, arg, depth + 1) for g, arg in sites)
 
+    for f_, n_, _l in reads:
+        if isinstance(n_.func, ast.Attribute) and n_.func.attr == "get_data":
+            chk.bad("O18.2", f_.qual, "the stream is read with get_data(): only its LEADING document is parsed, so a python/* or unregistered tag in a later document (after `---`) is never seen and the file is accepted (get_single_data() parses the whole stream and rejects a second document)", node=n_, stmt="reads-first-document-only")
     if len(reads) != 1:
         chk.bad("O18.2", yl.qual, "the YAML reader module reads documents at %d sites (required: exactly one read, through the given loader)" % len(reads), node=yl.node, stmt="reader-shape")
     else:
@@ -293,6 +303,43 @@ def run(chk):
     chk.floor("O18.6 construct sites", n_sites, 2)
     if not bad6:
         chk.ok("O18.6", "<package>", "no handler around the %d loader.construct_* / get_single_data call sites swallows a ConstructorError" % n_sites)
+    # ---- O18.7 tags on merge values ------------------------------------------------------------
+    # PyYAML's flatten_mapping splices the CONTENT of `<<: value` into the enclosing mapping; the value node itself is
+    # never constructed, so its tag is never dispatched -- `a: {<<: !!python/object/apply:os.system {x: 1}}` or
+    # `<<: !Unregistered {...}` loads without error.  Nothing is instantiated, but "rejected with an error, anywhere in
+    # the document" needs the loader to look at those tags itself.
+    skips = libfacts.yaml_merge_skips_tags()
+    chk.count()
+    if skips is False:
+        chk.ok("O18.7", "<installed PyYAML>", "flatten_mapping constructs (or checks) the merged nodes itself")
+    elif cls is not None:
+        override = None
+        for q in cls.mro:
+            c = prog.classes.get(q)
+            f = prog.lookup_method(c, "flatten_mapping") if c is not None else None
+            if f is not None and f.cls is not None and f.cls.qual in cls.mro:
+                override = f
+                break
+        good = False
+        if override is not None:
+            src = ast.unparse(override.node)
+            looks_at_tag = any(isinstance(n, ast.Attribute) and n.attr == "tag" for n in ast.walk(override.node))
+            rejects = "construct_undefined" in src or "ConstructorError" in src or "construct_object" in src
+            consults = "yaml_constructors" in src or "construct_object" in src
+            delegates = any(isinstance(n, ast.Call) and isinstance(n.func, ast.Attribute) and n.func.attr == "flatten_mapping" and isinstance(n.func.value, ast.Call) and util.dotted(n.func.value.func) == "super" for n in ast.walk(override.node))
+            merge_only = "merge" in src
+            good = looks_at_tag and rejects and consults and delegates and merge_only
+        if good:
+            chk.ok("O18.7", override.qual, "the loader checks the tag of every merge value against its constructor table before PyYAML splices the content in", node=override.node)
+        else:
+            chk.bad(
+                "O18.7",
+                cls.qual,
+                "a python/* tag or an unregistered !tag on the value of a merge key (`<<: !!python/object/apply:os.system {...}`, also inside a list of merge values) is silently ignored instead of rejected: the installed SafeConstructor.flatten_mapping splices value_node.value without ever dispatching value_node.tag, and %s" % ("the loader's flatten_mapping override does not reject such tags" if override is not None else "the loader does not override flatten_mapping"),
+                node=(override.node if override is not None else cls.node),
+                stmt="merge-value-tag-ignored",
+                input="a: {<<: !Unregistered {x: 1}}",
+            )
     # ---- O18.5 trusted-base cross-read -------------------------------------------------------
     for fact, confirmed in chk.facts.items():
         if confirmed is False:
